@@ -14,12 +14,10 @@ impl PanicInfo {
     /// Stable signature: source file + message with digits blanked
     pub fn sig(&self) -> String {
         let file = self.file.rsplit("/src/").next().unwrap_or(&self.file);
-        let m: String = self
-            .msg
-            .chars()
-            .take(60)
-            .map(|c| if c.is_ascii_digit() { '#' } else { c })
-            .collect();
+        // message up to the first double quote (what follows is usually user data), digits blanked
+        let head = self.msg.split('"').next().unwrap_or("");
+        let m: String = head.chars().take(80).map(|c| if c.is_ascii_digit() { '#' } else { c }).collect();
+        let m = m.trim_end().to_string();
         format!("{file}:{m}")
     }
     /// true if the panic originated in the library under test (not the harness, not std)
